@@ -229,6 +229,10 @@ def two_cell_mesh(pts_ref, dim):
         y[1] = x[1] + F(1, 9) * x[0] - F(1, 13) * (x[0] * x[0] if dim == 2 else x[2])
         if dim == 3:
             y[2] = x[2] + F(1, 10) * x[0] * x[1] + F(1, 12) * x[1]
+            # genuinely curved faces for the quadratic cells: curvature in both face directions, in every coordinate
+            y[0] = y[0] + F(1, 17) * x[1] * x[1] + F(1, 19) * x[2] * x[2] + F(1, 29) * x[1] * x[1] * x[2] + F(1, 37) * x[1] * x[2] * x[2]
+            y[1] = y[1] + F(1, 23) * x[0] * x[0] - F(1, 31) * x[2] * x[2] + F(1, 41) * x[0] * x[0] * x[2] + F(1, 43) * x[0] * x[2] * x[2]
+            y[2] = y[2] + F(1, 21) * x[0] * x[0] + F(1, 27) * x[1] * x[1] + F(1, 47) * x[0] * x[0] * x[1] + F(1, 53) * x[0] * x[1] * x[1]
         return y
 
     P_ = npmodel.array([warp(p) for p in pts], dtype=npmodel.DType("float"))
@@ -309,9 +313,13 @@ def run_selection(col, cell_type, elname, nnodes):
               "for every renumbering of the points the selected surface is the same set of faces (faces sharing points get the smallest / largest ids)", chk_relabel)
 
     # closure and flux on this (distorted, exact rational) mesh
+    TEMPLATE = {"quad": "RegionQuadBoundary", "quad8": "RegionQuadraticQuadBoundary", "quad9": "RegionBiQuadraticQuadBoundary", "hexahedron": "RegionHexahedronBoundary",
+                "hexahedron20": "RegionQuadraticHexahedronBoundary", "hexahedron27": "RegionTriQuadraticHexahedronBoundary"}[cell_type]
+
     def chk_closure():
-        quad = it.call(GLB, [], dict(order=order, dim=dim))
-        reg = it.call(cls, [mesh.copy(), el, quad], dict(grad=True, only_surface=True))
+        # the boundary region *template* of this cell type with its own element and default quadrature (the rule has to integrate the
+        # flux of the position vector over curved faces exactly)
+        reg = it.call(it.get("felupe.region._templates:" + TEMPLATE), [mesh.copy()], dict(grad=True, only_surface=True))
         dA = it.getattr(reg, "dA")
         tot = [npmodel.np_sum(dA[i]) for i in range(dim)]
         bad = [i for i in range(dim) if abs(P(tot[i]).const_value()) > Fraction(1, 10 ** 40)]
@@ -332,6 +340,6 @@ def run_selection(col, cell_type, elname, nnodes):
         vv = P(vol).const_value()
         okf = abs(fl - dim * vv) < Fraction(1, 10 ** 40)
         return not bad and okf and vv > 0, "sum dA = %s; flux %s vs dim*volume %s" % ([float(P(t).const_value()) for t in tot], float(fl), float(dim * vv))
-    col.check("C13.O5", "%s closure on a distorted two-cell mesh" % cell_type,
+    col.check("C13.O5", "%s closure on a distorted two-cell mesh (%s, default rule)" % (cell_type, TEMPLATE),
               "area vectors sum to zero and the flux of the position vector equals dim * volume (exact rational coordinates; Gauss points to 70 digits)", chk_closure)
     finish_info(col, it)
